@@ -5,13 +5,13 @@ go 1.26
 toolchain go1.26.8
 
 require (
+	github.com/PelicanPlatform/classad v0.4.0
 	github.com/anishathalye/porcupine v1.3.0
 	github.com/bbockelm/cedar v0.0.0
 	golang.org/x/crypto v0.53.0
 )
 
 require (
-	github.com/PelicanPlatform/classad v0.4.0 // indirect
 	github.com/golang-jwt/jwt/v5 v5.3.0 // indirect
 	github.com/hashicorp/go-uuid v1.0.3 // indirect
 	github.com/jcmturner/aescts/v2 v2.0.0 // indirect
